@@ -9,6 +9,7 @@ import (
 	"net"
 	"net/http"
 	"os"
+	"os/signal"
 	"path/filepath"
 	"sort"
 	"strconv"
@@ -19,6 +20,7 @@ import (
 	"time"
 
 	"github.com/AdguardTeam/AdGuardHome/internal/filtering/rulelist"
+	"github.com/AdguardTeam/AdGuardHome/internal/verifc15"
 	"github.com/miekg/dns"
 )
 
@@ -60,16 +62,104 @@ func (s c15Script) delivered() (ok bool, data string, readErr bool) {
 	return false, "", false
 }
 
-// outcome is the Gallina term for what the source does.
-func (s c15Script) outcome() string {
+// outcome is the Gallina term for what the source does; limit >= 0: the
+// pending file takes limit bytes in all.
+func (s c15Script) outcome(defs *[]vfDef, limit int) string {
 	okReader, data, readErr := s.delivered()
 	switch {
 	case !okReader:
 		return "OOpenErr"
 	case s.Kind == "rename-fail":
-		return vfApp("ORenameFail", vfBytes(data))
+		return vfApp("ORenameFail", c15B(defs, data))
+	case limit >= 0:
+		return vfApp("OWriteFail", c15B(defs, data), vfBool(readErr), vfN(uint64(limit)))
 	}
-	return vfApp("OBody", vfBytes(data), vfBool(readErr))
+	return vfApp("OBody", c15B(defs, data), vfBool(readErr))
+}
+
+// c15B prints a byte string; the 4 KiB filler inside it is printed once per
+// shard as a shared definition.
+func c15B(defs *[]vfDef, s string) string {
+	i := strings.Index(s, verifc15.Filler)
+	if i < 0 {
+		return vfBytes(s)
+	}
+	return vfApp("app", vfBytes(s[:i]), vfApp("app", vfShare(defs, "c15_filler", vfBytes(verifc15.Filler)), c15B(defs, s[i+len(verifc15.Filler):])))
+}
+
+// c15WithFileLimit runs f while no regular file of the process may grow
+// beyond limit bytes (RLIMIT_FSIZE, SIGXFSZ ignored): the write(2) that
+// crosses the limit is cut short and the next one fails with EFBIG, which is
+// what a full disk or a quota does to the pending file.  Nothing else in the
+// process writes a regular file meanwhile (the cases are written outside).
+func c15WithFileLimit(t *testing.T, limit int, f func()) {
+	if limit < 0 {
+		f()
+		return
+	}
+	signal.Ignore(syscall.SIGXFSZ)
+	var old syscall.Rlimit
+	if err := syscall.Getrlimit(syscall.RLIMIT_FSIZE, &old); err != nil {
+		t.Fatalf("getrlimit: %v", err)
+	}
+	lim := old
+	lim.Cur = uint64(limit)
+	if err := syscall.Setrlimit(syscall.RLIMIT_FSIZE, &lim); err != nil {
+		t.Fatalf("setrlimit: %v", err)
+	}
+	defer func() {
+		if err := syscall.Setrlimit(syscall.RLIMIT_FSIZE, &old); err != nil {
+			t.Fatalf("setrlimit back: %v", err)
+		}
+	}()
+	f()
+}
+
+// c15Why names the property's failure class a source falls into during one
+// step, by the byte-level definitions of package verifc15 and the script
+// (independent of the parser and of the model); "" if it is none of them.
+// limit >= 0: the pending file takes limit bytes.
+func c15Why(sc c15Script, limit int) (why string, cls []string) {
+	okReader, data, readErr := sc.delivered()
+	switch {
+	case !okReader:
+		return "no reader (" + sc.Kind + ")", nil
+	case readErr:
+		return "body cut short (" + sc.Kind + ")", nil
+	}
+	sp := verifc15.Classify([]byte(data))
+	cls = append(cls, sp.Obs...)
+	switch {
+	case sp.HTML:
+		return "HTML content before the first rule line", append(cls, "spec-html")
+	case sp.Binary:
+		return fmt.Sprintf("binary content: byte 0x%02x at line %d, column %d, in a rule line", sp.BadByte, sp.BadLine, sp.BadCol), append(cls, "spec-binary")
+	case sp.TooLong:
+		return "", cls
+	case limit >= 0 && len(sp.Norm) > limit:
+		cls = append(cls, "fail-write-limit")
+		switch {
+		case limit == 0:
+			cls = append(cls, "write-fail-at-0")
+		case sp.Norm[limit-1] == '\n':
+			cls = append(cls, "write-fail-at-line-boundary")
+		default:
+			cls = append(cls, "write-fail-mid-line")
+		}
+		if limit == len(sp.Norm)-1 {
+			cls = append(cls, "write-fail-last-byte")
+		}
+		if limit >= 4096 {
+			cls = append(cls, "write-fail-after-4k")
+		}
+		return fmt.Sprintf("the pending file takes %d of the %d bytes to be written", limit, len(sp.Norm)), cls
+	case limit >= 0:
+		cls = append(cls, "write-limit-not-reached")
+	}
+	if sc.Kind == "rename-fail" {
+		return "the pending file cannot replace the list's file", cls
+	}
+	return "", cls
 }
 
 type c15List struct {
@@ -89,6 +179,9 @@ type c15Step struct {
 	Scripts map[string]c15Script `json:"scripts"`
 	Set     *c15Set              `json:"set,omitempty"`
 	Rebuild bool                 `json:"rebuild,omitempty"`
+	// Limit, if set: the size in bytes no regular file may grow beyond during
+	// the step, so that the writes to the pending files fail from there on.
+	Limit *int `json:"pending_file_takes,omitempty"`
 }
 
 type c15Set struct {
@@ -200,7 +293,20 @@ var c15HTMLPrefixes = []string{"", "\n", "\r\n\r\n", "# x\n", "! Title: Portal\n
 
 func c15BadText(r *vfRand) string {
 	good := "||" + vfPick(r, c15Probes) + "^\n"
-	switch r.Intn(6) {
+	switch r.Intn(9) {
+	case 6, 7:
+		// One offending control byte at the start of a rule line, inside one,
+		// or as the last byte of the body.
+		var off []byte
+		for _, v := range verifc15.Values() {
+			if verifc15.Offending(v) {
+				off = append(off, v)
+			}
+		}
+		return vfPick(r, []string{"", "# c\n", "! Title: T\n"}) + verifc15.CtlBody(vfPick(r, off), vfPick(r, verifc15.Positions[:4]), vfPick(r, c15Probes))
+	case 8:
+		// Any control byte, also where it is not looked at (comment, title).
+		return verifc15.CtlBody(vfPick(r, verifc15.Values()), vfPick(r, []string{"line-start", "mid-line", "last-byte", "late-in-line", "comment", "title"}), vfPick(r, c15Probes))
 	case 0:
 		return vfPick(r, c15HTMLPrefixes) + "<!DOCTYPE html>\n<html><body>captive portal " + good + "</body></html>\n"
 	case 1:
@@ -294,7 +400,35 @@ func c15GenHist(r *vfRand) (h c15Hist) {
 		}
 	}
 	n := int(r.Range(2, 8))
+	// One history in three is about set_url: it starts with a forced refresh
+	// from sources that work (so that files are stored), and every second step
+	// is a set_url call.
+	heavy := r.Chance(1, 3)
+	if heavy {
+		n = int(r.Range(5, 9))
+	}
 	var last = map[int64]c15Script{}
+	// failingFor draws a failing source for a list: the ways a set_url-driven
+	// download fails.
+	failingFor := func(l c15List) c15Script {
+		c := vfPick(r, pools[l.ID])
+		for len(c) == 0 {
+			c = c15ListText(r)
+		}
+		if l.Local {
+			return vfPick(r, []c15Script{{Kind: "file-missing"}, {Kind: "file-dir"}, {Kind: "file-unsafe", Content: c}, {Kind: "file-ok", Content: c15BadText(r)}})
+		}
+		return vfPick(r, []c15Script{
+			{Kind: "status", Status: 500}, {Kind: "status", Status: 503}, {Kind: "status", Status: 404},
+			{Kind: "cut", Content: c, Cut: int(r.Range(0, int64(len(c))))}, {Kind: "cut", Content: c, Cut: len(c)},
+			{Kind: "rename-fail", Content: c}, {Kind: "rename-fail", Content: c},
+			{Kind: "ok", Content: c15BadText(r)}, {Kind: "ok", Content: c15BadText(r)}, {Kind: "close-early"}, {Kind: "refused"},
+		})
+	}
+	// reenable: the list a set_url call of the previous step disabled; half of
+	// the time the next step enables it again, two times in three against a
+	// failing source.
+	var reenable *c15List
 	for i := 0; i < n; i++ {
 		st := c15Step{Block: !r.Chance(1, 6), Allow: !r.Chance(1, 6), Force: r.Chance(1, 2), Scripts: map[string]c15Script{}}
 		for _, l := range h.Lists {
@@ -306,22 +440,76 @@ func c15GenHist(r *vfRand) (h c15Hist) {
 				// Serve the same thing again (same checksum).
 				sc = prev
 			}
+			if heavy && i == 0 {
+				sc = c15Script{Kind: "ok", Content: vfPick(r, pools[l.ID])}
+				if l.Local {
+					sc.Kind = "file-ok"
+				}
+			}
 			last[l.ID] = sc
 			st.Scripts[strconv.FormatInt(l.ID, 10)] = sc
 		}
-		if r.Chance(1, 4) {
+		if heavy && i == 0 {
+			st.Block, st.Allow, st.Force = true, true, true
+			h.Steps = append(h.Steps, st)
+			continue
+		}
+		switch {
+		case reenable != nil && r.Chance(3, 4):
+			l := *reenable
+			st.Set = &c15Set{ID: l.ID, Enabled: true, Name: l.Name}
+			if r.Chance(2, 3) {
+				st.Scripts[strconv.FormatInt(l.ID, 10)] = failingFor(l)
+				last[l.ID] = st.Scripts[strconv.FormatInt(l.ID, 10)]
+			}
+			reenable = nil
+		case r.Chance(1, 4) || (heavy && r.Chance(1, 3)):
+			reenable = nil
 			l := vfPick(r, h.Lists)
 			st.Set = &c15Set{ID: l.ID, Enabled: r.Chance(1, 2), Name: vfPick(r, []string{l.Name, l.Name, "renamed", ""})}
-			switch r.Intn(8) {
+			kind := r.Intn(9)
+			if heavy && kind >= 6 {
+				kind = 0
+			}
+			switch kind {
 			case 0, 1:
-				// To another source (or back to the first one).
+				// To another source (or back to the first one); half of the
+				// time that source fails.
 				st.Set.URL = l.ID + 100*r.Range(0, 2)
 				st.Set.Enabled = !r.Chance(1, 4)
+				if r.Chance(1, 2) {
+					st.Scripts[strconv.FormatInt(l.ID, 10)] = failingFor(l)
+					last[l.ID] = st.Scripts[strconv.FormatInt(l.ID, 10)]
+				}
 			case 2:
 				st.Set.Dup = vfPick(r, h.Lists).ID
+			case 3:
+				// A list that does not exist (in the array of a random list).
+				st.Set.ID = vfPick(r, []int64{5, 15})
+				st.Set.URL = vfPick(r, []int64{0, 105})
 			}
-		} else if r.Chance(1, 10) {
+			if !st.Set.Enabled && st.Set.Dup == 0 && st.Set.ID == l.ID {
+				reenable = &l
+			}
+		case r.Chance(1, 10):
+			reenable = nil
 			st.Rebuild = true
+		default:
+			reenable = nil
+		}
+		if !st.Rebuild && r.Chance(1, 8) {
+			// The pending files take only so many bytes during this step.
+			longest := 0
+			for _, sc := range st.Scripts {
+				if len(sc.Content) > longest {
+					longest = len(sc.Content)
+				}
+			}
+			lim := int(r.Range(0, int64(longest)+2))
+			if r.Chance(1, 5) {
+				lim = 0
+			}
+			st.Limit = &lim
 		}
 		h.Steps = append(h.Steps, st)
 	}
@@ -515,6 +703,7 @@ func c15Run(t *testing.T, out *vfOut, srv *c15Server, h c15Hist, forced ...strin
 
 	prev, prevV := observe(), verdicts()
 	var steps []string
+	var defs []vfDef
 	nontrivial := false
 	seen := map[int64][]uint32{}       // checksums stored so far, per list
 	var failedSet *c15FailedSet        // the set_url call of the previous step failed
@@ -525,6 +714,10 @@ func c15Run(t *testing.T, out *vfOut, srv *c15Server, h c15Hist, forced ...strin
 			// See c15FollowUpAfterFailedURLChange.
 			classes["refresh-left-out-after-forgotten-checksum"] = true
 			continue
+		}
+		limit := -1
+		if st.Limit != nil {
+			limit = *st.Limit
 		}
 		// Arrange the sources.
 		srv.mu.Lock()
@@ -581,7 +774,7 @@ func c15Run(t *testing.T, out *vfOut, srv *c15Server, h c15Hist, forced ...strin
 			failedSet = nil
 			var obs, vs []string
 			for _, l := range h.Lists {
-				obs = append(obs, c15ObsTerm(l.ID, prev[l.ID], cur[l.ID]))
+				obs = append(obs, c15ObsTerm(&defs, l.ID, prev[l.ID], cur[l.ID]))
 			}
 			for _, v := range curV {
 				vs = append(vs, vfN(uint64(v)))
@@ -617,7 +810,7 @@ func c15Run(t *testing.T, out *vfOut, srv *c15Server, h c15Hist, forced ...strin
 				}
 			} else {
 				// No such list: the call is refused and nothing changes.
-				target.ID = st.Set.ID
+				target.ID, target.Allow = st.Set.ID, st.Set.ID >= 10
 				classes["set-unknown-list"] = true
 			}
 			urlChange := newKey != oldKey
@@ -626,7 +819,9 @@ func c15Run(t *testing.T, out *vfOut, srv *c15Server, h c15Hist, forced ...strin
 			var pan any
 			func() {
 				defer func() { pan = recover() }()
-				restart, serr = d.filterSetProperties(setURL, FilterYAML{Enabled: st.Set.Enabled, Name: st.Set.Name, URL: newURL}, target.Allow)
+				c15WithFileLimit(t, limit, func() {
+					restart, serr = d.filterSetProperties(setURL, FilterYAML{Enabled: st.Set.Enabled, Name: st.Set.Name, URL: newURL}, target.Allow)
+				})
 				if serr == nil && restart {
 					d.EnableFilters(false)
 				}
@@ -645,7 +840,15 @@ func c15Run(t *testing.T, out *vfOut, srv *c15Server, h c15Hist, forced ...strin
 			}
 			okReader, data, readErr := sc.delivered()
 			srcRes, srcNorm, srcErr := parseOf([]byte(data))
-			srcFails := !okReader || readErr || srcErr != nil || sc.Kind == "rename-fail"
+			// why: the failure class of the source by the byte-level definitions
+			// (HTML, binary, pending file too small ...), whatever the parser says.
+			why, wcls := c15Why(sc, limit)
+			srcFails := !okReader || readErr || srcErr != nil || sc.Kind == "rename-fail" || why != ""
+			if st.Set.Enabled && !dup && (urlChange || !b.enabled) {
+				for _, c := range wcls {
+					classes[c] = true
+				}
+			}
 			failedSet = nil
 			switch {
 			case serr != nil:
@@ -678,11 +881,11 @@ func c15Run(t *testing.T, out *vfOut, srv *c15Server, h c15Hist, forced ...strin
 					if b.exists && b.enabled {
 						afterFailedURL[target.ID] = true
 						classes["set-url-change-failed-with-file"] = true
-						classes["set-url-change-failed-"+c15FailKind(sc)] = true
+						classes["set-url-change-failed-"+c15FailKind(sc, limit)] = true
 					}
 				case b.exists && !b.enabled && st.Set.Enabled:
 					classes["set-reenable-failed-with-file"] = true
-					classes["set-reenable-failed-"+c15FailKind(sc)] = true
+					classes["set-reenable-failed-"+c15FailKind(sc, limit)] = true
 				}
 				if urlChange && !srcFails && !dup {
 					bad("C15/set-failed-without-cause", fmt.Sprintf("set_url on list %d to source %d failed (%v) although the source delivers %q", target.ID, newKey, serr, data))
@@ -712,7 +915,7 @@ func c15Run(t *testing.T, out *vfOut, srv *c15Server, h c15Hist, forced ...strin
 				}
 				delete(forgot, target.ID)
 				if srcFails {
-					bad("C15/enable-ignored-failure", fmt.Sprintf("list %d pointed to source %d without an error although that source %s fails", target.ID, newKey, sc.Kind))
+					bad("C15/enable-ignored-failure", fmt.Sprintf("list %d pointed to source %d (%s, body %q) without an error although that source fails: %s; file %q -> %q, count %d -> %d", target.ID, newKey, sc.Kind, c15Short(data), why, c15Short(string(b.file)), c15Short(string(a.file)), b.count, a.count))
 				} else {
 					wantFile := srcRes.Checksum != 0
 					if !a.enabled || a.url != newKey || a.count != srcRes.RulesCount || a.sum != srcRes.Checksum || a.exists != wantFile || (wantFile && !bytes.Equal(a.file, srcNorm)) {
@@ -733,7 +936,7 @@ func c15Run(t *testing.T, out *vfOut, srv *c15Server, h c15Hist, forced ...strin
 				classes["set-enable"] = true
 				delete(forgot, target.ID)
 				if srcFails {
-					bad("C15/enable-ignored-failure", fmt.Sprintf("list %d enabled without an error although its source %s fails", target.ID, sc.Kind))
+					bad("C15/enable-ignored-failure", fmt.Sprintf("list %d enabled (source %s, body %q) without an error although its source fails: %s; file %q -> %q, count %d -> %d", target.ID, sc.Kind, c15Short(data), why, c15Short(string(b.file)), c15Short(string(a.file)), b.count, a.count))
 				} else {
 					if bytes.Equal(b.file, srcNorm) && b.exists {
 						classes["set-enable-identical-bytes"] = true
@@ -770,14 +973,14 @@ func c15Run(t *testing.T, out *vfOut, srv *c15Server, h c15Hist, forced ...strin
 
 			var obs, vs []string
 			for _, l := range h.Lists {
-				obs = append(obs, c15ObsTerm(l.ID, prev[l.ID], cur[l.ID]))
+				obs = append(obs, c15ObsTerm(&defs, l.ID, prev[l.ID], cur[l.ID]))
 				key[l.ID] = cur[l.ID].url
 			}
 			for _, v := range curV {
 				vs = append(vs, vfN(uint64(v)))
 			}
 			steps = append(steps, vfApp("RSet", vfBool(target.Allow), vfN(uint64(oldKey)), vfBytes(st.Set.Name), vfN(uint64(newKey)), vfBool(st.Set.Enabled),
-				sc.outcome(), vfBool(restart), vfBool(serr != nil), vfList("lobs", obs), vfList("N", vs)))
+				sc.outcome(&defs, limit), vfBool(restart), vfBool(serr != nil), vfList("lobs", obs), vfList("N", vs)))
 			prev, prevV = cur, curV
 			continue
 		}
@@ -788,7 +991,9 @@ func c15Run(t *testing.T, out *vfOut, srv *c15Server, h c15Hist, forced ...strin
 		var updNum int
 		func() {
 			defer func() { pan = recover() }()
-			updNum, netErr, _ = d.tryRefreshFilters(st.Block, st.Allow, st.Force)
+			c15WithFileLimit(t, limit, func() {
+				updNum, netErr, _ = d.tryRefreshFilters(st.Block, st.Allow, st.Force)
+			})
 		}()
 		if pan != nil {
 			bad("C15/refresh-panic", fmt.Sprintf("refresh panicked: %v", pan))
@@ -816,17 +1021,37 @@ func c15Run(t *testing.T, out *vfOut, srv *c15Server, h c15Hist, forced ...strin
 				}
 			}
 			renameFail := sc.Kind == "rename-fail" && !failing
+			// The failure classes of the property by their byte-level
+			// definitions (package verifc15) and the script, whatever the
+			// parser made of the body: HTML or binary content, a pending file
+			// that does not take what is to be written.
+			why, wcls := c15Why(sc, limit)
+			if okReader && !readErr && !failing {
+				if sp := verifc15.Classify([]byte(data)); sp.Clean() && !bytes.Equal(srcNorm, sp.Norm) {
+					bad("C15/normal-form-differs-from-spec", fmt.Sprintf("list %d: body %q: the parser's normal form is %q, by definition it is %q", l.ID, c15Short(data), c15Short(string(srcNorm)), c15Short(string(sp.Norm))))
+				}
+			}
 			b, a := prev[l.ID], cur[l.ID]
-			if !attempted[l.ID] || failing || renameFail {
+			if !attempted[l.ID] || failing || renameFail || why != "" {
+				what := "not attempted"
+				if attempted[l.ID] {
+					what = fmt.Sprintf("source %s, body %q: %s", sc.Kind, c15Short(data), why)
+					if why == "" {
+						what = fmt.Sprintf("source %s, body %q: rejected by the parser", sc.Kind, c15Short(data))
+					}
+					for _, c := range wcls {
+						classes[c] = true
+					}
+				}
 				if rewritten(b, a) || !bytes.Equal(b.file, a.file) {
-					bad("C15/failed-refresh-changed-file", fmt.Sprintf("list %d: source %s, but the stored file changed from %q to %q", l.ID, sc.Kind, b.file, a.file))
+					bad("C15/failed-refresh-changed-file", fmt.Sprintf("list %d: %s; but the stored file changed from %q to %q", l.ID, what, c15Short(string(b.file)), c15Short(string(a.file))))
 				}
 				if b.count != a.count || b.sum != a.sum || b.name != a.name || b.enabled != a.enabled {
 					key := "C15/failed-refresh-changed-meta"
 					if renameFail && attempted[l.ID] {
 						key = "C15/rename-failure-changed-meta"
 					}
-					bad(key, fmt.Sprintf("list %d: source %s, but name/count/checksum changed from %q/%d/%08x to %q/%d/%08x", l.ID, sc.Kind, b.name, b.count, b.sum, a.name, a.count, a.sum))
+					bad(key, fmt.Sprintf("list %d: %s; but name/count/checksum changed from %q/%d/%08x to %q/%d/%08x", l.ID, what, b.name, b.count, b.sum, a.name, a.count, a.sum))
 				}
 				if attempted[l.ID] {
 					classes["fail-"+sc.Kind] = true
@@ -852,6 +1077,9 @@ func c15Run(t *testing.T, out *vfOut, srv *c15Server, h c15Hist, forced ...strin
 				}
 			} else {
 				allFailed = false
+				for _, c := range wcls {
+					classes[c] = true
+				}
 				// What is stored now, by the harness's own parse of it.
 				stRes, _, stErr := parseOf(b.file)
 				how := ""
@@ -900,7 +1128,7 @@ func c15Run(t *testing.T, out *vfOut, srv *c15Server, h c15Hist, forced ...strin
 					seen[l.ID] = append(seen[l.ID], srcRes.Checksum)
 				}
 			}
-			if attempted[l.ID] && (failing || renameFail) && b.exists {
+			if attempted[l.ID] && (failing || renameFail || why != "") && b.exists {
 				nontrivial = true
 				classes["failed-with-existing-file"] = true
 			}
@@ -969,8 +1197,8 @@ func c15Run(t *testing.T, out *vfOut, srv *c15Server, h c15Hist, forced ...strin
 		}
 		for _, l := range h.Lists {
 			sc := st.Scripts[strconv.FormatInt(l.ID, 10)]
-			ocs = append(ocs, vfPair(vfN(uint64(l.ID)), sc.outcome()))
-			obs = append(obs, c15ObsTerm(l.ID, prev[l.ID], cur[l.ID]))
+			ocs = append(ocs, vfPair(vfN(uint64(l.ID)), sc.outcome(&defs, limit)))
+			obs = append(obs, c15ObsTerm(&defs, l.ID, prev[l.ID], cur[l.ID]))
 		}
 		var vs []string
 		for _, v := range curV {
@@ -1009,7 +1237,15 @@ func c15Run(t *testing.T, out *vfOut, srv *c15Server, h c15Hist, forced ...strin
 		MonitorMsg: monMsg,
 		FindingKey: monKey,
 		Desc:       h,
+		Defs:       defs,
 	})
+}
+
+func c15Short(s string) string {
+	if len(s) > 300 {
+		return fmt.Sprintf("%s … (%d bytes) … %s", s[:100], len(s), s[len(s)-100:])
+	}
+	return s
 }
 
 // c15FailedSet is what a failed set_url call leaves to be looked at after the
@@ -1020,8 +1256,10 @@ type c15FailedSet struct {
 }
 
 // c15FailKind names the way a source fails, for the class counters.
-func c15FailKind(sc c15Script) string {
+func c15FailKind(sc c15Script, limit int) string {
 	switch {
+	case (sc.Kind == "ok" || sc.Kind == "file-ok") && limit >= 0 && verifc15.Classify([]byte(sc.Content)).Clean():
+		return "write-limit"
 	case sc.Kind == "ok" || sc.Kind == "file-ok":
 		return "bad-content"
 	case sc.Kind == "status" && sc.Status >= 500:
@@ -1030,8 +1268,8 @@ func c15FailKind(sc c15Script) string {
 	return sc.Kind
 }
 
-func c15ObsTerm(id int64, b, a c15Obs) string {
-	return vfApp("LO", vfN(uint64(id)), vfN(uint64(a.url)), vfOpt("list N", a.exists, vfBytes(string(a.file))), vfN(uint64(a.count)), vfN(uint64(a.sum)),
+func c15ObsTerm(defs *[]vfDef, id int64, b, a c15Obs) string {
+	return vfApp("LO", vfN(uint64(id)), vfN(uint64(a.url)), vfOpt("list N", a.exists, c15B(defs, string(a.file))), vfN(uint64(a.count)), vfN(uint64(a.sum)),
 		vfBytes(a.name), vfBool(a.enabled), vfBool(b.exists != a.exists || b.ino != a.ino))
 }
 
@@ -1188,6 +1426,118 @@ func TestVerifC15(t *testing.T) {
 		}
 		steps = append(steps, setTo(id, true, 0, ok(b1)), rebuild)
 		c15Run(t, out, srv, c15Hist{Lists: three, Steps: steps})
+	}
+
+	// Binary content, byte by byte: a body whose only control byte besides LF
+	// is each of 0x00..0x1F, 0x7F in turn, at the start of a rule line, inside
+	// one, as the last byte of the body, after 4 KiB of rules, in a comment
+	// line, in the title line; forced and scheduled refreshes of a block and an
+	// allow list (the allow list seven values ahead, so that passes where one
+	// list fails and the other is updated are among them).
+	vals := verifc15.Values()
+	for pi, pos := range verifc15.Positions {
+		lists := []c15List{{ID: 1, Enabled: true, Name: "list 1"}, {ID: 11, Allow: true, Enabled: true, Name: "list 11"}}
+		steps := []c15Step{step(two(ok(good1), ok(a2)))}
+		if pos == "title" {
+			// The block list has no name and starts with the first of these
+			// bodies, so that its title, NUL byte included, is adopted.
+			lists[0].Name = ""
+			steps = nil
+		}
+		for k, v := range vals {
+			mk := step
+			if (k+pi)%3 == 0 {
+				mk = sched
+			}
+			pos11 := pos
+			if pos == "after-4k" {
+				// 4 KiB bodies for the block list only (cost of the replay in Coq).
+				pos11 = "mid-line"
+			}
+			steps = append(steps, mk(two(ok(verifc15.CtlBody(v, pos, c15Probes[k%3])), ok(verifc15.CtlBody(vals[(k+7)%len(vals)], pos11, c15Probes[(k+1)%3])))))
+		}
+		steps = append(steps, step(two(ok(good2), ok(allow1))))
+		c15Run(t, out, srv, c15Hist{Lists: lists, Steps: steps}, "ctl-"+pos)
+	}
+	c15Run(t, out, srv, c15Hist{Lists: []c15List{{ID: 1, Enabled: true, Local: true, Name: "local"}}, Steps: []c15Step{
+		step(one(1, c15Script{Kind: "file-ok", Content: good1})),
+		step(one(1, c15Script{Kind: "file-ok", Content: verifc15.CtlBody(0x00, "mid-line", "p3.example")})),
+		step(one(1, c15Script{Kind: "file-ok", Content: verifc15.CtlBody(0x0b, "mid-line", "p3.example")})),
+		step(one(1, c15Script{Kind: "file-ok", Content: verifc15.CtlBody(0x0b, "last-byte", "p3.example")})),
+		step(one(1, c15Script{Kind: "file-ok", Content: verifc15.CtlBody(0x1b, "line-start", "p2.example")})),
+		step(one(1, c15Script{Kind: "file-ok", Content: verifc15.CtlBody(0x7f, "after-4k", "p2.example")})),
+		step(one(1, c15Script{Kind: "file-ok", Content: good2})),
+	}}, "ctl-local-file")
+	// ... and through set_url: the URL of an enabled list changed to, and a
+	// disabled list re-enabled against, a source with an ESC, a US, a VT byte
+	// inside a rule line.
+	for _, id := range []int64{1, 11} {
+		steps := []c15Step{first}
+		for _, v := range []byte{0x1b, 0x1f, 0x0b, 0x00} {
+			steps = append(steps, setTo(id, true, id+100, ok(verifc15.CtlBody(v, "mid-line", "p3.example"))), rebuild)
+		}
+		steps = append(steps, setTo(id, false, 0, ok(b1)))
+		for _, v := range []byte{0x1b, 0x0c, 0x7f} {
+			steps = append(steps, setTo(id, true, 0, ok(verifc15.CtlBody(v, "mid-line", "p3.example"))), rebuild)
+		}
+		steps = append(steps, setTo(id, true, 0, ok(verifc15.CtlBody(0x0c, "last-byte", "p3.example"))), rebuild)
+		c15Run(t, out, srv, c15Hist{Lists: three, Steps: steps}, "ctl-set-url")
+	}
+
+	// Failing writes to the pending file: a file-size limit during the step
+	// (RLIMIT_FSIZE; the write crossing it is short, the next fails), at 0, in
+	// the first line, at the line boundary, one byte into the second line, one
+	// byte short of the end; then with room for everything.  The allow list's
+	// new content is one line, so from the line boundary on it is updated
+	// while the block list fails.
+	lim := func(n int, st c15Step) c15Step { st.Limit = &n; return st }
+	wA := "||p1.example^\n||p2.example^\n"
+	wB := "! Title: W\n||p3.example^\r\n# c\n  ||p2.example^  \n"
+	nB := len(verifc15.Classify([]byte(wB)).Norm)
+	{
+		steps := []c15Step{step(two(ok(wA), ok(a2)))}
+		for _, n := range []int{0, 1, 14, 15, 16, nB - 1} {
+			steps = append(steps, lim(n, step(two(ok(wB), ok(b2)))))
+		}
+		steps = append(steps, lim(nB, sched(two(ok(wB), ok(b2)))),
+			lim(nB, sched(two(ok(wA+"||p3.example^\n"), ok(a2)))), lim(nB, step(two(ok("<html>"), ok(a2+"\x01\n")))),
+			lim(0, step(two(ok("# nothing\n"), c15Script{Kind: "cut", Content: a2, Cut: 3}))),
+			lim(7, step(two(c15Script{Kind: "rename-fail", Content: wA}, c15Script{Kind: "status", Status: 500}))),
+			step(two(ok(wA), ok(a2))))
+		c15Run(t, out, srv, c15Hist{Lists: both, Steps: steps}, "write-limit")
+	}
+	{
+		big := verifc15.Filler + "||p1.example^\n"
+		big2 := verifc15.Filler + strings.ReplaceAll(verifc15.Filler, "fill-", "more-") + "||p2.example^\n"
+		steps := []c15Step{step(one(1, ok(good1)))}
+		for _, n := range []int{0, 100, 4095, 4096, 4097, len(big) - 1} {
+			steps = append(steps, lim(n, step(one(1, ok(big)))))
+		}
+		steps = append(steps, lim(len(big), step(one(1, ok(big)))))
+		for _, n := range []int{4096, 8192, len(big2) - 1} {
+			steps = append(steps, lim(n, step(one(1, ok(big2)))))
+		}
+		steps = append(steps, lim(len(big2), step(one(1, ok(big2)))), step(one(1, ok(good2))))
+		c15Run(t, out, srv, c15Hist{Lists: web, Steps: steps}, "write-limit")
+		c15Run(t, out, srv, c15Hist{Lists: []c15List{{ID: 1, Enabled: true, Local: true, Name: "local"}}, Steps: []c15Step{
+			step(one(1, c15Script{Kind: "file-ok", Content: wA})), lim(0, step(one(1, c15Script{Kind: "file-ok", Content: wB}))),
+			lim(20, step(one(1, c15Script{Kind: "file-ok", Content: wB}))), lim(nB, step(one(1, c15Script{Kind: "file-ok", Content: wB}))),
+		}}, "write-limit")
+	}
+	// ... and in the downloads set_url starts: a new URL, a re-enabled list.
+	for _, id := range []int64{1, 11} {
+		c15Run(t, out, srv, c15Hist{Lists: three, Steps: []c15Step{
+			first,
+			lim(0, setTo(id, true, id+100, ok(good2+a1))), rebuild,
+			lim(20, setTo(id, true, id+100, ok(good2+a1))), rebuild,
+			lim(len(good2+a2)-1, setTo(id, true, id+100, ok(good2+a1))), rebuild,
+			setTo(id, false, 0, ok(b1)),
+			lim(0, setTo(id, true, 0, ok(b1))), rebuild,
+			lim(len(b1)-1, setTo(id, true, 0, ok(b1))), rebuild,
+			lim(len(b1), setTo(id, true, 0, ok(b1))), rebuild,
+			lim(3, setTo(id, true, id+100, ok(good2+a1))),
+			lim(len(good2+a2), setTo(id, true, id+100, ok(good2+a1))), rebuild,
+		}}, "write-limit-set-url")
 	}
 
 	r := vfNewRand(out.Seed)
